@@ -14,6 +14,7 @@ import json
 import random
 
 import metricmodel as mm
+import covutil
 import vlib
 
 LEVEL = "model_checking"
@@ -112,24 +113,28 @@ def run(ctx):
     binary = vlib.build(ctx, "c09")
     if ctx.thorough:
         trans = nontriv = 0
-        for v in ALL_TYPES:           # one type at a time keeps the graph in memory small
-            t, n = graph_stage(ctx, binary, (v,), maxts=2, exps=(1,), valbound=2, label="thorough-" + v)
+        # one type at a time keeps the graph in memory small; Int with the richest value domain
+        for v, vb in (("Int", 2), ("Float", 1), ("String", 1), ("Buckets", 1)):
+            t, n = graph_stage(ctx, binary, (v,), maxts=2, exps=(1,), valbound=vb, label="thorough-" + v, random_walks=100)
             trans += t
             nontriv += n
-        consts = {"tuples": 3, "bad_tuples": 2, "MaxTs": 2, "Expiries": [1], "ValBound": 2}
+        consts = {"tuples": 3, "bad_tuples": 2, "MaxTs": 2, "Expiries": [1], "ValBound": {"Int": 2, "others": 1}}
     else:
         # Int over all three tuples, the other types (same map code, other datum constructors) over two
         trans, nontriv = graph_stage(ctx, binary, ALL_TYPES, maxts=1, exps=(1,), valbound=1, label="quick",
                                      wide=("Int",), random_walks=60)
         consts = {"tuples": 3, "tuples_for_non_Int_types": 2, "bad_tuples": 2, "MaxTs": 1, "Expiries": [1], "ValBound": 1}
-    wsteps = walk_stage(ctx, binary, 1500, 80) if ctx.thorough else 0
+    wsteps = walk_stage(ctx, binary, 200, 80) if ctx.thorough else 0
     if ctx.thorough:
-        # model only: the largest bounds, with coverage: no action may be vacuous
-        mc = mm.mc_module(TUPLES, BAD, expiries=(1, 2), vtypes=ALL_TYPES)
-        r = vlib.tlc(ctx, "MCMetric", mm.cfg("check", maxts=2, valbound=2, invariants=mm.STATE_INVS + ["StepOK"], view="View"),
-                     extra_files={"MCMetric.tla": mc}, label="Metric-check-large", coverage=True, timeout=2400)
-        if r.zero_cov:
-            raise vlib.InfraError("actions never taken in Metric.tla: %s" % r.zero_cov)
+        # model only: two expiry values as well; and once with coverage: no action may be vacuous
+        mc = mm.mc_module(TUPLES, BAD, expiries=(1, 2), vtypes=("Int", "Buckets"))
+        vlib.tlc(ctx, "MCMetric", mm.cfg("check", maxts=2, valbound=1, invariants=mm.STATE_INVS + ["StepOK"], view="View"),
+                 extra_files={"MCMetric.tla": mc}, label="Metric-check-large", timeout=2400)
+        r = vlib.tlc(ctx, "MCMetric", mm.cfg("check", invariants=mm.STATE_INVS + ["StepOK"], view="View"),
+                     extra_files={"MCMetric.tla": mm.mc_module(TUPLES, BAD, vtypes=ALL_TYPES, wide=("Int",))},
+                     label="Metric-coverage", coverage=True, timeout=2400)
+        if covutil.final_zero_cov(r.stdout):
+            raise vlib.InfraError("actions never taken in Metric.tla: %s" % covutil.final_zero_cov(r.stdout))
         # the universe is collision-free under the code's key encoding as well
         vlib.tlc(ctx, "MCMetric", mm.cfg("check", dev=True, invariants=mm.STATE_INVS + ["StepOK"], view="View"),
                  extra_files={"MCMetric.tla": mm.mc_module(TUPLES, BAD, vtypes=("Int",))}, label="Metric-check-devkey")
